@@ -269,3 +269,31 @@ pub fn c10_bounds_pow2_2sweeps() {
 pub fn c10_bounds_pow2_3sweeps() {
     bounds_pow2(3);
 }
+
+/// non-square data (m = 2 rows, n = 1 column), ONE Ruiz sweep: every row and every column factor is clipped
+/// into [min, max] - also the rows beyond index min(m, n) - 1.  Data are powers of two over 24 orders of
+/// magnitude; P = 0 (no objective scaling), so the sweep is the row / column clipping only.
+#[kani::proof]
+#[kani::unwind(5)]
+#[kani::stub(std::collections::hash_map::RandomState::new, stub_random_state)]
+pub fn c10_bounds_pow2_nonsquare_1sweep() {
+    let a0 = pow2_any(-40, 40);
+    let a1 = pow2_any(-40, 40);
+    let P = CscMatrix::<f64> { m: 1, n: 1, colptr: vec![0, 0], rowval: vec![], nzval: vec![] };
+    let A = CscMatrix::<f64> { m: 2, n: 1, colptr: vec![0, 2], rowval: vec![0, 1], nzval: vec![a0, a1] };
+    let cones_t = [SupportedConeT::NonnegativeConeT(2)];
+    let mut st = settings_f64();
+    st.presolve_enable = false;
+    st.equilibrate_max_iter = 1;
+    let (lo, hi) = (st.equilibrate_min_scaling, st.equilibrate_max_scaling);
+    let mut data = DefaultProblemData::<f64>::new(&P, &[1.0], &A, &[1.0, 1.0], &cones_t, &st);
+    crate::stack_composite!(cones, f64, [SupportedConeT::<f64>::NonnegativeConeT(2)]);
+    data.equilibrate(&cones, &st);
+    let eq = &data.equilibration;
+    let slack = 1.0 + 8.0 * f64::EPSILON;
+    assert!(eq.d[0] >= lo / slack && eq.d[0] <= hi * slack, "column_factor_within_bounds");
+    assert!(eq.e[0] >= lo / slack && eq.e[0] <= hi * slack, "first_row_factor_within_bounds");
+    assert!(eq.e[1] >= lo / slack && eq.e[1] <= hi * slack, "row_factor_beyond_the_number_of_columns_within_bounds");
+    kani::cover!(eq.e[1] > 1e3, "trailing row driven to the upper bound");
+    kani::cover!(eq.e[1] < 1e-3, "trailing row driven to the lower bound");
+}
